@@ -14,12 +14,13 @@ LEGACY_HEAD = "\nfrom struct import pack as StructPack, unpack as StructUnpack\n
 
 
 def crash_then_define(args):
-    pre, victim, k, nbytes, after, bytecode = args
+    pre, victim, k, nbytes, after, bytecode = args[:6]
+    pid = args[6] if len(args) > 6 else None        # not None: the crashed writer's pid is recycled for the process that comes after
     with Scratch('c16') as d:
         if pre:
             cachelib.run_proc(d, [dict(variant=pre)], bytecode=bytecode, tag='pre')
-        rc, o, log = cachelib.run_proc(d, [dict(variant=victim)], bytecode=bytecode, mode='crash', crash_at=k, crash_bytes=nbytes, tag='victim')
-        rc2, o2, log2 = cachelib.run_proc(d, [dict(variant=after)], bytecode=bytecode, tag='after')
+        rc, o, log = cachelib.run_proc(d, [dict(variant=victim)], bytecode=bytecode, mode='crash', crash_at=k, crash_bytes=nbytes, tag='victim', fixed_pid=pid)
+        rc2, o2, log2 = cachelib.run_proc(d, [dict(variant=after)], bytecode=bytecode, tag='after', fixed_pid=pid)
         leftovers = sorted(os.listdir(os.path.join(d, '__pkts__'))) if os.path.isdir(os.path.join(d, '__pkts__')) else []
     return rc, rc2, o2, log2, leftovers
 
@@ -55,7 +56,7 @@ def scheduled(args):
 def run(tier, seed, rng):
     from concurrent.futures import ThreadPoolExecutor
     failures = []
-    dist = dict(crash_points=0, byte_level_crashes=0, torn_files=0, schedules=0, definitions_after=0, distinct_interleavings=0)
+    dist = dict(crash_points=0, byte_level_crashes=0, torn_files=0, schedules=0, definitions_after=0, distinct_interleavings=0, recycled_pid_crashes=0)
     # ---- crash points: before every file operation of a cache update, and after n bytes of the write
     nops = 9
     jobs = []
@@ -65,11 +66,13 @@ def run(tier, seed, rng):
     for n in ([0, 1, 50, 200, 700, 1300, 1400] if tier == 'quick' else list(range(0, 1440, 17))):
         jobs.append(('', 'A', 5 if True else 0, n, 'A', False))
         jobs.append(('C', 'A', 6, n, 'C', True))
+    jobs += [j + (4242,) for j in jobs]          # ... and the same with the crashed writer's pid recycled
     with ThreadPoolExecutor(max_workers=NPROC) as ex:
         res = list(ex.map(crash_then_define, jobs))
     for job, (rc, rc2, o2, log2, left) in zip(jobs, res):
         dist['crash_points'] += 1
         dist['byte_level_crashes'] += job[3] is not None
+        dist['recycled_pid_crashes'] += len(job) > 6
         if o2 is None:
             failures.append(dict(kind='oracle', sig='crash-define', what=f"after a crash (job {job}) the next definition's process died: {log2}", job=list(job)))
             continue
